@@ -1,4 +1,4 @@
-SPECIFICATION TSpecD
+SPECIFICATION TSpec
 CONSTANTS
   EntryLists <- D_EntriesQuick
   ChainCalls = FALSE
